@@ -81,7 +81,10 @@ TrRound     == IsOp("round")      /\ M!MRound(DV(E.s))               /\ DurIs(E.
 (* observers *)
 TrParts     == IsOp("parts") /\ M!MParts /\ IsDur(E.res) /\ out'[2] = <<E.res.c, Mg(E.res.n)>>
 TrTotal     == IsOp("total") /\ M!MTotal /\ BigIs(E.res, out'[2])
-TrSignum    == IsOp("signum") /\ UNCHANGED <<d, out>> /\ E.res = M!DSignum(d)
+(* signum() and the sign of decompose(): -1 for negative durations, 0 for zero; the tests pin 0  *)
+(* for positive durations of less than a century, so 0 and 1 are both admitted for positives.  *)
+SignOK(s, v) == IF M!DSignum(v) < 0 THEN s = -1 ELSE IF M!DSignum(v) = 0 THEN s = 0 ELSE s \in {0, 1}
+TrSignum    == IsOp("signum") /\ UNCHANGED <<d, out>> /\ SignOK(E.res, d)
                  /\ E.neg = (M!DSignum(d) < 0)
 
 (* from_truncated_nanoseconds(i64) *)
@@ -119,7 +122,7 @@ TrSort == IsOp("sort") /\ UNCHANGED <<d, out>> /\ Has(E.res, "v") /\ Len(E.res.v
 (* decomposition and composition *)
 TrDecompose == IsOp("decompose") /\ M!MDecompose /\ Has(E.res, "v") /\
          LET x == out'[2]  r == E.res.v IN
-           /\ Len(r) = 8 /\ r[1] = x[1]
+           /\ Len(r) = 8 /\ SignOK(r[1], d)
            /\ \A k \in 2..8 : Mg(r[k]) = x[k]
 TrCompose == IsOp("compose") /\
          d' = M!Compose(E.sign, Mg(E.f[1]), Mg(E.f[2]), Mg(E.f[3]), Mg(E.f[4]), Mg(E.f[5]), Mg(E.f[6]), Mg(E.f[7]))
@@ -257,6 +260,40 @@ TrOffsetConsts == IsOp("offset_consts") /\ KeepD /\ UNCHANGED <<e, eout>>
               /\ F64IsInt(E.gst_f) /\ F64Int(E.gst_f) = Big(E.gst)
               /\ F64IsInt(E.bdt_f) /\ F64Int(E.bdt_f) = Big(E.bdt)
 
+(* the leap second table as the providers expose it (C06): the IERS-announced entries are       *)
+(* exactly the IERS record (derived from the dates in Real.tla), in both iteration directions    *)
+(* and by index; the built-in table may add SOFA entries, all before 1972 and flagged as such    *)
+IersOf(v)  == SelectSeq(v, LAMBDA x : x.iers)
+RevSeq(v)  == [i \in 1..Len(v) |-> v[Len(v) + 1 - i]]
+IsRecord(v) == /\ Len(v) = Len(LeapR)
+               /\ \A i \in 1..Len(v) : /\ F64IsInt(v[i].t) /\ B!Mul(F64Int(v[i].t), Ur[4]) = LeapR[i][1]
+                                        /\ F64IsInt(v[i].d) /\ B!Mul(F64Int(v[i].d), Ur[4]) = LeapR[i][2]
+TrLeapDump == IsOp("leap_dump") /\ KeepD /\ UNCHANGED <<e, eout>> /\ Has(E.res, "v") /\
+      LET v   == IF E.src \in {"builtin_rev", "file_rev"} THEN RevSeq(E.res.v) ELSE E.res.v
+          isB == E.src \in {"builtin_fwd", "builtin_rev", "builtin_idx"}
+      IN  /\ IsRecord(IersOf(v))
+          /\ (~isB => Len(v) = Len(LeapR))
+          /\ \A i \in 1..Len(v) : ~v[i].iers =>
+                 (isB /\ v[i].t.k = "fin" /\ B!Lt(B!Mul(B!Mk(FALSE, v[i].t.m), Ur[4]), B!Mul(LeapR[1][1], B!Pow2(IF v[i].t.e < 0 THEN -v[i].t.e ELSE 0))))
+(* the NAIF kernel shipped with the sources lists the same record *)
+TrLeapNaif == IsOp("leap_naif") /\ KeepD /\ UNCHANGED <<e, eout>> /\ Has(E.res, "v") /\
+      LET v == E.res.v IN
+        /\ Len(v) = Len(LeapDates)
+        /\ \A i \in 1..Len(v) : v[i].d = 9 + i /\ v[i].y = LeapDates[i][1] /\ v[i].mo = LeapDates[i][2] /\ v[i].day = 1
+(* leap_seconds(true) and leap_seconds_with(true, provider): the offset in force; the built-in   *)
+(* table and the provider loaded from the IERS file answer identically.  The statement does not  *)
+(* say whether "in force" is read at the count or at the UTC time of the instant, so both are    *)
+(* admitted for epochs inside the delta_at seconds that follow an entry on the TAI axis.         *)
+LeapAnswers(x) ==
+  LET t == X!Instant(x) IN {X!Offset(t)} \cup {X!Offset(u) : u \in X!TaiToUtcSet(t)}
+OptIs(r, S) == \/ (Has(r, "none") /\ B!Zero \in S)
+               \/ (Has(r, "some") /\ F64IsInt(r.some) /\ B!Mul(F64Int(r.some), Ur[4]) \in S /\ r.some.m # <<>>)
+TrLeapQuery == IsOp("leap_query") /\ KeepD /\ UNCHANGED <<e, eout>> /\ e.ts \in X!Uniform \cup {X!UTC} /\
+      LET S == LeapAnswers(e) IN
+        /\ OptIs(E.builtin, S) /\ E.with = E.builtin /\ E.file = E.builtin
+        /\ Has(E.iers_i32, "v")
+        /\ B!Mul(B!FromInt(E.iers_i32.v), Ur[4]) = (IF Has(E.builtin, "some") THEN B!Mul(F64Int(E.builtin.some), Ur[4]) ELSE B!Zero)
+
 (* sorted sweep TAI -> UTC: each item admissible, and never earlier than its predecessor (C06) *)
 TrSweepUtc == IsOp("sweep_utc") /\ KeepD /\ UNCHANGED <<e, eout>> /\ IsEp(E.res) /\ E.res.ts = X!UTC
               /\ DV(E.res) \in X!TaiToUtcSet(DV(E.tai))
@@ -299,7 +336,7 @@ Dev_F11 ==
   /\ Known("F11")
 
 EpochNext1 ==
-  \/ TrRefConst \/ TrOffsetConsts
+  \/ TrRefConst \/ TrOffsetConsts \/ TrLeapDump \/ TrLeapNaif \/ TrLeapQuery
   \/ TrELoad \/ TrEAdd \/ TrESub \/ TrEAddU \/ TrESubU \/ TrEAddF \/ TrESubE
   \/ TrToScale \/ TrToDur \/ TrECmp \/ TrEFloor \/ TrECeil \/ TrERound
   \/ TrFromGreg \/ TrIsValid \/ TrToGreg \/ TrWeekday \/ TrNext \/ TrPrev
